@@ -438,4 +438,100 @@ mod verif_kani_io {
         kani::cover!(r.is_err() && n() == 1);
         std::mem::forget(io);
     }
+
+    // ---------------------------------------------------------------- metadata I/O (U3)
+    use crate::storage::metadata::verif_kani_metadata::{any_metadata, with_generation};
+    use crate::storage::seq_token::verif_kani_seq::stub_crc32c_impl;
+
+    pub static mut READ_BUF_TAGS: [u8; 4] = [0; 4]; // [primary valid, backup valid, ..]
+    pub static mut READ_GEN: [u64; 2] = [0; 2];
+
+    // read stub: 8 blocks, block 0 and block 7 start with a tag byte (0x10 primary, 0x17 backup)
+    pub fn stub_read_sectors_sync(_this: &DiskIO, sector: u64, count: u64) -> Result<Vec<u8>> {
+        assert!(sector == 0 && count == 8, "read_metadata reads blocks 0..=7 in one call");
+        let mut v = vec![0u8; 8 * FEOX_BLOCK_SIZE];
+        v[0] = 0x10;
+        v[7 * FEOX_BLOCK_SIZE] = 0x17;
+        Ok(v)
+    }
+
+    // decode stub: validity and generation of each copy are symbolic (set by the harness)
+    pub fn stub_from_bytes(bytes: &[u8]) -> Option<Metadata> {
+        let which = if bytes[0] == 0x10 { 0 } else { 1 };
+        unsafe {
+            if READ_BUF_TAGS[which] == 1 { Some(with_generation(READ_GEN[which])) } else { None }
+        }
+    }
+
+    #[kani::proof]
+    #[kani::stub(DiskIO::read_sectors_sync, stub_read_sectors_sync)]
+    #[kani::stub(crate::storage::metadata::Metadata::from_bytes, stub_from_bytes)]
+    fn read_metadata_selection() {
+        let (io, _, _) = any_io();
+        let pv: bool = kani::any();
+        let bv: bool = kani::any();
+        let pg: u64 = kani::any();
+        let bg: u64 = kani::any();
+        unsafe {
+            READ_BUF_TAGS[0] = pv as u8;
+            READ_BUF_TAGS[1] = bv as u8;
+            READ_GEN = [pg, bg];
+        }
+        let r = io.read_metadata().unwrap();
+        assert!(r.len() == FEOX_BLOCK_SIZE);
+        let chose_backup = r[0] == 0x17;
+        assert!(chose_backup || r[0] == 0x10);
+        let want_backup = (pv && bv && bg > pg) || (!pv && bv);
+        assert!(chose_backup == want_backup, "newest valid copy wins; primary on ties; the only valid copy otherwise; primary when none is valid");
+        kani::cover!(chose_backup);
+        kani::cover!(!chose_backup && pv && bv);
+        std::mem::forget(io);
+    }
+
+    #[kani::proof]
+    #[kani::unwind(120)]
+    #[kani::stub(DiskIO::write_sectors_sync, stub_write_sectors_sync)]
+    #[kani::stub(DiskIO::flush, stub_flush)]
+    #[kani::stub(crate::storage::seq_token::crc32c_impl, stub_crc32c_impl)]
+    fn write_store_metadata_ordering() {
+        let (io, _, _) = any_io();
+        let fail_at: usize = kani::any();
+        kani::assume(fail_at <= 2);
+        reset(fail_at);
+        let mut m = any_metadata();
+        let before = m.encode();
+        let g0 = m.generation();
+        let r = io.write_store_metadata(&mut m);
+        match &r {
+            Ok(()) => {
+                assert!(fail_at >= 2);
+                assert!(g0 < u64::MAX && m.generation() == g0 + 1, "the caller's copy advances by one generation");
+                assert!(n() == 2 && kind(0) == K_WRITE && kind(1) == K_FLUSH && len(0) == FEOX_BLOCK_SIZE, "exactly [write one block, fsync]");
+                let want = if (g0 + 1) % 2 == 0 { 0 } else { 7 };
+                assert!(sector(0) == want, "even new generation -> primary block 0, odd -> backup block 7 (never the copy holding the last durable generation)");
+                assert!(tag(0) == b'F', "the block starts with the signature");
+            }
+            Err(_) => {
+                assert!(m.encode() == before, "on any failure the caller's metadata is unchanged");
+                assert!(n() <= 2);
+            }
+        }
+        kani::cover!(r.is_ok() && sector(0) == 0);
+        kani::cover!(r.is_ok() && sector(0) == 7);
+        kani::cover!(r.is_err() && n() == 2);
+        kani::cover!(r.is_err() && n() == 0);
+        std::mem::forget(io);
+    }
+
+    #[kani::proof]
+    fn metadata_block_contract() {
+        let src: [u8; 136] = kani::any();
+        let b = metadata_block(&src).unwrap();
+        assert!(b.len() == FEOX_BLOCK_SIZE);
+        let i: usize = kani::any();
+        kani::assume(i < FEOX_BLOCK_SIZE);
+        assert!(b[i] == if i < 136 { src[i] } else { 0 }, "image at offset 0, zero padded to one block");
+        let big = vec![0u8; FEOX_BLOCK_SIZE + 1];
+        assert!(metadata_block(&big).is_err());
+    }
 }
